@@ -48,7 +48,7 @@ def secondary(M, opt, x, optval):
     raise ValueError(opt)
 
 
-def underdet_case(M, m, n, rows, kkind, opt, via="function", lbkind="pos"):
+def underdet_case(M, m, n, rows, kkind, opt, via="function", lbkind="pos", warmup=False, np_scalar=False):
     from dreye.api.optimize.lsq_linear import lsq_linear_underdetermined
     A, K, base, lb, ub, lbl, ubl = fs.mk_system(M, m, n, kkind, "vec", lbkind, "fin")
     W = M.real("W", (rows, m), sample=lambda r, s: r.uniform(0.5, 2.0, size=s))
@@ -70,6 +70,11 @@ def underdet_case(M, m, n, rows, kkind, opt, via="function", lbkind="pos"):
         optval = M.real("optvec", (n,), sample=lambda r, s: r.uniform(0.0, 2.0, size=s))
     xc = M.real("xc", (rows, n), sample=lambda r, s: r.uniform(0.3, 1.0, size=s))
     arg = {"l2": "l2", None: None, "min": "min", "max": "max", "var": "var", "number": optval, "vector": optval}[opt]
+    if np_scalar and not M.symbolic:
+        arg = np.float64(arg)  # the requested total held in a numpy scalar (e.g. the mean of an array) -- typing is visible to the run of the real code only
+    if warmup and via == "function":
+        # an earlier call on the same system and option with a much looser tolerance must not influence this one
+        lsq_linear_underdetermined(A, B, lb=lb, ub=ub, W=W, K=K, baseline=base, l2_eps=l2_eps + 0.5, underdetermined_opt=arg, return_pred=True)
     symcp.reset()
     if via == "function":
         X, Bp = lsq_linear_underdetermined(A, B, lb=lb, ub=ub, W=W, K=K, baseline=base, l2_eps=l2_eps, underdetermined_opt=arg, return_pred=True)
@@ -184,6 +189,13 @@ def cases(tier, seed):
         if big:
             for (m, n) in ((3, 5), (4, 5), (4, 7)):
                 add(f"{m}x{n} opt={opt} K=vec", m=m, n=n, rows=1, kkind="vec", opt=opt)
+    for opt in ("max", "min", "l2"):
+        add(f"2x3 opt={opt} K=vec after an earlier call with a looser tolerance", m=2, n=3, rows=1, kkind="vec", opt=opt, warmup=True)
+        # (a cache inside the library keyed on the arrays' bytes is only hit by the real code's float arrays: the run of the real code decides)
+        C[-1]["opts"].update(n_validate=3, float_strict=True)
+    # the option typed as a numpy scalar: the clause about the requested total is decided by the run of the real code (typing is invisible to real arithmetic)
+    add("2x3 opt=number K=vec, the number held in a numpy scalar", m=2, n=3, rows=1, kkind="vec", opt="number", np_scalar=True)
+    C[-1]["opts"].update(float_strict=True, n_validate=4)
     C.append(dict(name="guard batch_size", body="guard_case", kwargs=dict(which="batch"), opts=dict(n_validate=1)))
     C.append(dict(name="guard underdetermined", body="guard_case", kwargs=dict(which="square"), opts=dict(n_validate=1)))
     return C
